@@ -277,6 +277,27 @@ control("C12", "inherited default value is not asserted against the limits",
          (UD, "        if default_value is None:\n            if is_min_exclusive or is_max_exclusive:", "        if default_value is None and from_category:\n            default_value = self.GetCategoryInfo(from_category).default_value\n        elif default_value is None:\n            if is_min_exclusive or is_max_exclusive:")], "C12.R6")
 control("C12", "exclusive limits no longer require a default",
         [(UD, "            if is_min_exclusive or is_max_exclusive:\n                raise RuntimeError(\"default_value must be supplied\")\n            elif min_value is not None:", "            if min_value is not None:")], "C12.R6")
+# ------------------------------------------------------------------------------------------ C05
+control("C05", "InvalidOperationError arm deleted",
+        [(UD, "                else:\n                    raise InvalidOperationError(\n                        \"Error. Can't do operation because units don't match: (%s != %s)\"\n                        % (composing_units1, composing_units2)\n                    )\n", "")], "C05.R1")
+control("C05", "a third non-raising arm after a mismatch",
+        [(UD, "                elif len(composing_units2) == 0:\n                    pass  # ok, no units in the second part...\n", "                elif len(composing_units2) == 0:\n                    pass  # ok, no units in the second part...\n                elif len(composing_units1) == len(composing_units2):\n                    pass\n")], "C05.R1")
+control("C05", "GetInfo's direct lookup ignores the quantity type",
+        [(UD, "                if quantity_type == unit_info.quantity_type:\n                    return unit_info", "                return unit_info")], "C05.R2")
+control("C05", "legacy fallback of GetInfo looks the fixed unit up in the unit map directly",
+        [(UD, "                        unit_info = TryToGetUnitInfoFromUnit(fixed_unit)\n                        if unit_info is not None:\n                            return unit_info", "                        if fixed_unit in self.unit_to_unit_info:\n                            return self.unit_to_unit_info[fixed_unit]")], "C05.R2")
+control("C05", "failed unit check recorded as valid",
+        [(UD, "            except UnitsError:\n                valid = False", "            except UnitsError:\n                valid = True")], "C05.R3")
+control("C05", "exponent mismatch no longer raises",
+        [(UD, "        if from_exp != to_exp:\n            raise ValueError(\n                \"Cannot convert among different exponents (%s) to (%s)\"\n                % ((from_unit, from_exp), (to_unit, to_exp))\n            )\n", "")], "C05.R4")
+control("C05", "FractionScalar.__lt__ loses its quantity-type guard",
+        [(FS, "        if self.quantity_type != other.quantity_type:\n            msg = \"can not compare scalars of different quantity types: %r != %r\"\n            raise TypeError(msg % self.quantity_type, other.quantity_type)\n", "")], "C05.R5")
+control("C05", "legacy path of Quantity.__init__ skips CheckCategoryUnit",
+        [(Q, "                if is_legacy:\n                    unit_database.CheckCategoryUnit(category, unit)\n                else:\n                    raise e", "                if not is_legacy:\n                    raise e")], "C05.R6")
+control("C05", "deepcopy of the left operand's map weakened to a shallow copy",
+        [(UD, "            category_to_unit_and_exp1 = copy.deepcopy(quantity1.GetCategoryToUnitAndExps())", "            category_to_unit_and_exp1 = copy.copy(quantity1.GetCategoryToUnitAndExps())")], "C05.R7")
+control("C05", "a failing conversion registers the unknown unit",
+        [(UD, "                raise InvalidUnitError(\n                    unit, quantity_type, valid_units=sorted([info.unit for info in quantity_types])\n                )", "                self.unit_to_unit_info.setdefault(unit, None)  # type:ignore\n                raise InvalidUnitError(\n                    unit, quantity_type, valid_units=sorted([info.unit for info in quantity_types])\n                )")], "C05.R7")
 # ------------------------------------------------------------------------------------------ running
 def _apply(edits):
     overlay = {}
